@@ -61,7 +61,7 @@ func (self *Compiler) compileStmt(node ast.AnalyzedStatement) {
 
 		for idx := len(node.TriggerArguments.List) - 1; idx >= 0; idx-- {
 			fmt.Printf("TRIGGER STATEMENT COMPILATION OF ARG: %s\n", node.TriggerArguments.List[idx].Expression)
-			self.compileExpr(node.TriggerArguments.List[idx].Expression)
+			self.compileOperand(node.TriggerArguments.List[idx].Expression, uint(len(node.TriggerArguments.List)-1-idx))
 		}
 
 		self.insert(newValueInstruction(Opcode_Copy_Push, *value.NewValueString(node.TriggerIdent.Ident())), node.Span())
@@ -79,14 +79,24 @@ func (self *Compiler) compileStmt(node ast.AnalyzedStatement) {
 			self.insert(newValueInstruction(Opcode_Copy_Push, *value.NewValueNull()), node.Span())
 		}
 
+		// Operands of unfinished expressions must not be left behind for the caller: keep the return value only.
+		if self.pending > 0 {
+			returnValue := self.mangleVar("@return")
+			self.insert(newOneStringInstruction(Opcode_SetVarImm, returnValue), node.Span())
+			self.dropPending(self.pending, node.Span())
+			self.insert(newOneStringInstruction(Opcode_GetVarImm, returnValue), node.Span())
+		}
+
 		// Leaving the function also leaves all of its try-blocks.
 		self.popTryLabels(self.tryDepth, node.Span())
 		self.insert(newOneStringInstruction(Opcode_Jump, self.CurrFn().CleanupLabel), node.Span())
 	case ast.BreakStatementKind:
-		// Leave the try-blocks which were entered inside the loop.
+		// Drop the operands of expressions which are abandoned and leave the try-blocks which were entered inside the loop.
+		self.dropPending(self.pending-self.currLoop().pending, node.Span())
 		self.popTryLabels(self.tryDepth-self.currLoop().tryDepth, node.Span())
 		self.insert(newOneStringInstruction(Opcode_Jump, self.currLoop().labelBreak), node.Span())
 	case ast.ContinueStatementKind:
+		self.dropPending(self.pending-self.currLoop().pending, node.Span())
 		self.popTryLabels(self.tryDepth-self.currLoop().tryDepth, node.Span())
 		self.insert(newOneStringInstruction(Opcode_Jump, self.currLoop().labelContinue), node.Span())
 	case ast.LoopStatementKind:
